@@ -796,6 +796,8 @@ def check_all(items):
         c.checks_unsat += len(items)
         return True
     r = c._check(z3.Not(conj))
+    if XCHECK_EVERY and r != z3.unknown:
+        _xcheck(c, z3.Not(conj), r)
     if r == z3.unsat:
         c.checks += len(items)
         c.checks_unsat += len(items)
